@@ -705,16 +705,23 @@ impl MqttClientImpl {
                 self.desired_stop_options = None;
                 self.desired_state = ClientImplState::Connected;
             }
-            OperationOptions::Stop(options) => {
+            OperationOptions::Stop(mut options) => {
 
                 if let Some(disconnect) = &options.disconnect {
-                    debug!("Submitting disconnect operation to protocol state");
-                    let disconnect_context = UserEventContext {
-                        event: UserEvent::Disconnect(disconnect.clone()),
-                        current_time
-                    };
+                    if is_connection_established(self.protocol_state.state()) {
+                        debug!("Submitting disconnect operation to protocol state");
+                        let disconnect_context = UserEventContext {
+                            event: UserEvent::Disconnect(disconnect.clone()),
+                            current_time
+                        };
 
-                    self.protocol_state.handle_user_event(disconnect_context);
+                        self.protocol_state.handle_user_event(disconnect_context);
+                    } else {
+                        // there is no established MQTT connection to send a DISCONNECT on (for example we
+                        // are still waiting for the CONNACK); waiting for it to be flushed would wait forever
+                        debug!("No established connection, stopping without a disconnect packet");
+                        options.disconnect = None;
+                    }
                 }
 
                 debug!("Updating desired state to Stopped");
